@@ -112,6 +112,13 @@ func (a *aggregate) Next(ctx context.Context) ([]model.StepVector, error) {
 		return nil, err
 	}
 	if in == nil {
+		// The parameter is evaluated for every step, as in the reference
+		// engine, so that an error in it is not lost.
+		if a.paramOp != nil {
+			if err := drainOperator(ctx, a.paramOp); err != nil {
+				return nil, err
+			}
+		}
 		return nil, nil
 	}
 	defer a.next.GetPool().PutVectors(in)
@@ -153,6 +160,23 @@ func (a *aggregate) Next(ctx context.Context) ([]model.StepVector, error) {
 	}
 
 	return result, nil
+}
+
+// drainOperator consumes the rest of the stream of an operator.
+func drainOperator(ctx context.Context, op model.VectorOperator) error {
+	for {
+		batch, err := op.Next(ctx)
+		if err != nil {
+			return err
+		}
+		if batch == nil {
+			return nil
+		}
+		for _, vector := range batch {
+			op.GetPool().PutStepVector(vector)
+		}
+		op.GetPool().PutVectors(batch)
+	}
 }
 
 func (a *aggregate) initializeTables(ctx context.Context) error {
